@@ -18,7 +18,7 @@ import (
 // C16 — search history is a bounded, ordered, faithfully persisted log.
 // E1: all operation sequences of length d over {add(x|y|z), save, load(same
 // max), load(other max), clear} x configured max {1,2,3} against a reference
-// log, every view compared after every step.  E2: every history file built
+// log, every view compared after every step.  E1b: 10 wide histories (1..150 distinct queries + a repeat of the first, maximum 100, saved and loaded) against the same reference; E2: every history file built
 // from <=3 fields of a JSON field alphabet (+ specials and every byte prefix of
 // a valid file) is loaded, then four searches are recorded, saved, re-loaded.
 
@@ -43,7 +43,7 @@ type histCase struct {
 
 func histAlphabet() []histOp {
 	// "X " differs from "x" only in case and a trailing blank: a different query, not a repetition
-	return []histOp{{"add", "x"}, {"add", "X "}, {"add", "z"}, {"save", ""}, {"load", ""}, {"loadother", ""}, {"clear", ""}}
+	return []histOp{{"add", "x"}, {"add", "X "}, {"add", "z"}, {"save", ""}, {"load", ""}, {"loadother", ""}, {"clear", ""}, {"reload", ""}}
 }
 
 func histViews(sh *history.SearchHistory, m []hEnt, max int) string {
@@ -142,6 +142,53 @@ func histViews(sh *history.SearchHistory, m []hEnt, max int) string {
 	return ""
 }
 
+// histWide: many distinct queries (the views have built-in defaults of 10): n distinct adds, then one repeat
+// of an old query, on a history of maximum 100, saved and loaded; every view against the reference log.
+func histWide(dir string, n int) *lib.Violation {
+	vtime.Enable()
+	vtime.SetAutoTick(time.Millisecond)
+	defer vtime.Disable()
+	path := filepath.Join(dir, "hw.json")
+	os.Remove(path)
+	defer os.Remove(path)
+	sh := history.NewSearchHistory(path, 100)
+	var m []hEnt
+	add := func(q string, k int) {
+		before := vtime.Base.Add(vtime.Offset())
+		sh.AddEntry(q, k, "c", time.Duration(k+1)*time.Millisecond)
+		e := hEnt{q, before, k, "c", int64(k + 1)}
+		if len(m) > 0 && m[len(m)-1].q == q {
+			m[len(m)-1] = e
+		} else {
+			m = append(m, e)
+			if len(m) > 100 {
+				m = m[len(m)-100:]
+			}
+		}
+	}
+	for i := 0; i < n; i++ {
+		add(fmt.Sprintf("query %03d", i), i)
+	}
+	add("query 000", n)
+	fail := func(what string) *lib.Violation {
+		return &lib.Violation{Key: "history-wide", What: fmt.Sprintf("after %d distinct queries and a repeat of the first: %s", n, what), Case: histCase{Max: 100, Ops: []histOp{{"wide", fmt.Sprint(n)}}}}
+	}
+	if bad := histViews(sh, m, 100); bad != "" {
+		return fail(bad)
+	}
+	if err := sh.Save(); err != nil {
+		return fail("Save failed: " + err.Error())
+	}
+	sh2 := history.NewSearchHistory(path, 100)
+	if err := sh2.Load(); err != nil {
+		return fail("Load failed: " + err.Error())
+	}
+	if bad := histViews(sh2, m, 100); bad != "" {
+		return fail("after save and load: " + bad)
+	}
+	return nil
+}
+
 func runHistSeq(dir string, cs histCase) (v *lib.Violation, obs string) {
 	vtime.Enable()
 	vtime.SetAutoTick(time.Millisecond)
@@ -168,8 +215,13 @@ func runHistSeq(dir string, cs histCase) (v *lib.Violation, obs string) {
 			case "add":
 				n++
 				before := vtime.Base.Add(vtime.Offset())
-				sh.AddEntry(op.Q, n, "ctx"+op.Q, time.Duration(n)*time.Millisecond)
-				e := hEnt{op.Q, before, n, "ctx" + op.Q, int64(n)}
+				// "z" is recorded without context and duration: the file omits those fields for it
+				ctx, dur := "ctx"+op.Q, int64(n)
+				if op.Q == "z" {
+					ctx, dur = "", 0
+				}
+				sh.AddEntry(op.Q, n, ctx, time.Duration(dur)*time.Millisecond)
+				e := hEnt{op.Q, before, n, ctx, dur}
 				if len(m) > 0 && m[len(m)-1].q == op.Q {
 					m[len(m)-1] = e
 				} else {
@@ -185,12 +237,17 @@ func runHistSeq(dir string, cs histCase) (v *lib.Violation, obs string) {
 				persisted = append([]hEnt(nil), m...)
 				persistedMax = maxInForce
 				fileExists = true
-			case "load", "loadother":
+			case "load", "loadother", "reload":
 				cfg := cs.Max
 				if op.Kind == "loadother" {
 					cfg = cs.Max%3 + 1
 				}
-				sh = history.NewSearchHistory(path, cfg)
+				if op.Kind == "reload" && fileExists {
+					// Load on the object in use (its in-memory log may differ from the file): same outcome as a fresh load
+					cfg = maxInForce
+				} else {
+					sh = history.NewSearchHistory(path, cfg)
+				}
 				if err := sh.Load(); err != nil {
 					panic(fmt.Sprintf("Load failed: %v", err))
 				}
@@ -389,6 +446,15 @@ func runHistFile(dir string, content string) (v *lib.Violation, obs string) {
 }
 
 func c16Run(c *lib.Ctx) {
+	if c.Shard == 0 {
+		for _, n := range []int{1, 9, 10, 11, 12, 25, 99, 100, 101, 150} {
+			c.Rep.Evaluations++
+			c.Count("wide_histories", 1)
+			if v := histWide(c.Scratch, n); v != nil {
+				c.Violate(*v)
+			}
+		}
+	}
 	alpha := histAlphabet()
 	depth := 6
 	if c.Thorough() {
@@ -500,7 +566,7 @@ func c16Run(c *lib.Ctx) {
 func init() {
 	lib.Register(&lib.Check{
 		ID: "C16", Level: "model_checking",
-		Rule:      "E1: every operation sequence of length 6 (thorough 8) over {add \"x\"|\"X \"|\"z\" (the second differs from the first only in case and a trailing blank: a different query), save, load(same configured max), load(other configured max), clear} for configured max 1,2,3 on the real SearchHistory under a virtual clock (1 ms per reading), entries and the recent/top/stats/pattern views compared with a reference log after every step; E2: every history file made of <=3 fields from a 25-field JSON alphabet (quick: all singles and pairs, a third of the triples) plus specials and every byte prefix of a valid file: Load, record n1,n1,n2,n3, views, Save, re-Load; distinct_nontrivial = distinct observation strings (per-step sizes for sequences; load outcome/size/max for files), per worker, summed",
+		Rule:      "E1: every operation sequence of length 6 (thorough 8) over {add \"x\"|\"X \"|\"z\" (the second differs from the first only in case and a trailing blank: a different query), save, load(same configured max), load(other configured max), Load on the object in use, clear; the third query is recorded without context and duration, so the file omits those fields} for configured max 1,2,3 on the real SearchHistory under a virtual clock (1 ms per reading), entries and the recent/top/stats/pattern views compared with a reference log after every step; E2: every history file made of <=3 fields from a 25-field JSON alphabet (quick: all singles and pairs, a third of the triples) plus specials and every byte prefix of a valid file: Load, record n1,n1,n2,n3, views, Save, re-Load; distinct_nontrivial = distinct observation strings (per-step sizes for sequences; load outcome/size/max for files), per worker, summed",
 		Assume:    []string{"clock owned through vtime", "files on tmpfs"},
 		QuickSecs: 90, ThorSecs: 900,
 		Run: c16Run,
@@ -516,6 +582,9 @@ func init() {
 					return nil
 				}
 				v, _ = runHistFile(c.Scratch, content)
+			} else if len(cs.Ops) == 1 && cs.Ops[0].Kind == "wide" {
+				n, _ := strconv.Atoi(cs.Ops[0].Q)
+				v = histWide(c.Scratch, n)
 			} else {
 				v, _ = runHistSeq(c.Scratch, cs)
 			}
